@@ -70,6 +70,9 @@ type vfServer struct {
 	Statements []string         // every mutating statement received (whitespace-normalised, args inlined), in order
 	FailOn     map[string]error // substring of the statement text -> error returned instead of executing it
 	EmptyOn    map[string]bool  // substring of a reading statement -> answered with an empty result set (zero rows)
+	// Hook, if set, runs (with mu held) before every statement is answered: lets a test change the server state between
+	// two statements of ONE call into the code under test (e.g. "an operator ran RESET REPLICA ALL in between").
+	Hook func(s *vfServer, q string)
 }
 
 func vfMaster(host, gtid string) *vfServer {
@@ -223,6 +226,9 @@ func (s *vfServer) run(ctx context.Context, query string, args []driver.NamedVal
 	defer s.mu.Unlock()
 	if !s.Alive {
 		return nil, vfRefused(s.Host)
+	}
+	if s.Hook != nil {
+		s.Hook(s, q)
 	}
 	mutating := false
 	for _, p := range vfMutating {
